@@ -24,6 +24,8 @@ pub enum DMode {
     SeqTl,
     /// `dispatch_thread_local` only
     TlOnly,
+    /// `RunNow::run_now` on the dispatcher (documented as: same as `dispatch`)
+    RunNow,
 }
 
 impl DMode {
@@ -34,16 +36,17 @@ impl DMode {
             DMode::Seq => "dispatch_seq",
             DMode::SeqTl => "dispatch_seq+tl",
             DMode::TlOnly => "dispatch_thread_local",
+            DMode::RunNow => "RunNow::run_now",
         }
     }
     pub fn runs_tl(self) -> bool {
-        matches!(self, DMode::Dispatch | DMode::SeqTl | DMode::TlOnly)
+        matches!(self, DMode::Dispatch | DMode::SeqTl | DMode::TlOnly | DMode::RunNow)
     }
     pub fn runs_units(self) -> bool {
         !matches!(self, DMode::TlOnly)
     }
     pub fn parallel(self) -> bool {
-        matches!(self, DMode::Dispatch | DMode::Par)
+        matches!(self, DMode::Dispatch | DMode::Par | DMode::RunNow)
     }
     pub fn outer(self) -> &'static str {
         if self.parallel() {
@@ -220,6 +223,7 @@ pub fn call(d: &mut Dispatcher<'static, 'static>, world: &World, m: DMode) {
             d.dispatch_thread_local(world);
         }
         DMode::TlOnly => d.dispatch_thread_local(world),
+        DMode::RunNow => shred::RunNow::run_now(d, world),
     }
 }
 
